@@ -15,6 +15,8 @@ def shlU (a b : Nat) : Nat := (a <<< b) % 2 ^ 64
 def shrU (a b : Nat) : Nat := a >>> b
 def orU (a b : Nat) : Nat := a ||| b
 def andU (a b : Nat) : Nat := a &&& b
+/-- `^a` on `uint64`. -/
+def notU (a : Nat) : Nat := 2 ^ 64 - 1 - a % 2 ^ 64
 def addU (a b : Nat) : Nat := (a + b) % 2 ^ 64
 def subU (a b : Nat) : Nat := ofI ((a : Int) - (b : Int))
 def mulU (a b : Nat) : Nat := (a * b) % 2 ^ 64
